@@ -1,12 +1,1 @@
-(* C15 — request IDs and service-1 reports.  Snapshot before the repairs. *)
 From Coq Require Import ZArith List Bool.
-From SP Require Import Base.Result Base.Bytes Model.Fields Model.Srv1 Proofs.Srv1Proofs.
-Open Scope Z_scope.
-
-Theorem C15_check_pfc_only_octet_widths_refuted : exists pfc n, check_pfc pfc = Ok n /\ pfc <> 8 * n.
-Proof. exact check_pfc_only_octet_widths_refuted. Qed.
-Print Assumptions C15_check_pfc_only_octet_widths_refuted.
-
-Theorem C15_srv1_decoded_equal_refuted : d_c15_1_witness = true.
-Proof. exact srv1_decoded_equal_refuted. Qed.
-Print Assumptions C15_srv1_decoded_equal_refuted.
